@@ -173,6 +173,33 @@ fn main() {
             }
             out.flush().unwrap();
         }
+        "builder-table" => {
+            // every sequence of up to three PoolBuilder configuration calls over a small alphabet
+            let alphabet = [
+                "m:1", "m:3", "T:-,-,-", "T:5000,6000,7000", "w:-", "w:1500", "c:-", "c:2500", "r:-", "r:3500", "q:f", "q:l",
+                "C:9,1000,2000,3000,l", "C:4,-,-,-,f",
+            ];
+            let dflt = deadpool::managed::PoolConfig::default().max_size;
+            let mut seqs: Vec<Vec<String>> = vec![vec![]];
+            let mut frontier: Vec<Vec<String>> = vec![vec![]];
+            for _ in 0..3 {
+                let mut next = Vec::new();
+                for s in &frontier {
+                    for a in alphabet {
+                        let mut t = s.clone();
+                        t.push(a.to_string());
+                        next.push(t);
+                    }
+                }
+                seqs.extend(next.iter().cloned());
+                frontier = next;
+            }
+            for s in seqs {
+                let row = std::panic::catch_unwind(|| managed::builder_row(&s)).unwrap_or("builder panicked".into());
+                writeln!(out, "builder d={} {} => {}", dflt, s.join(" "), row).unwrap();
+            }
+            out.flush().unwrap();
+        }
         "background-check" => {
             // C08: building a pool calls nothing and nothing happens in the background,
             // with a multi-threaded runtime alive the whole time
